@@ -342,6 +342,7 @@ func ParseLocal(data []byte, filename string, base *File) (*File, error) {
 		Custom:   base.Custom,
 		Deps:     local.Deps,
 	}
+	eff.Description = base.Description
 	if err := eff.InitNonStrict(); err != nil {
 		return nil, fmt.Errorf("invalid module file %s: %v", filename, err)
 	}
